@@ -249,7 +249,24 @@ def inv_year_rules(facts, rep):
             ok &= rep.check(good, rule, "year-in-range@%s" % f.path.split("::")[-1], where(f, s["span"]), "constructed with year in [1980, 2107] (%s)" % show(y)[:50],
                             "DateTime constructed with year = %s, not provably within 1980..=2107: datepart()'s `year - 1980` can then overflow (panic) "
                             "and the value does not fit the 7-bit DOS year" % show(y))
-    rep.floor(rule, 4, "default, from_msdos, from_date_and_time, try_from")
+    # the default timestamp is a real calendar date within the checked constructor's own ranges (it is what entries get when the
+    # caller sets none -- and what unwrap_or_default() falls back to): constant fields, month 1..=12, day 1..=31, h/m/s in range
+    dfl = [f for f in facts.fns if re.search(r"<types::DateTime as std::default::Default>::default$", f.path)]
+    if not dfl:
+        raise AnchorLost("Default for DateTime")
+    exd = Ex(dfl[0])
+    ag = list(aggregates(dfl[0], r"^types::DateTime$"))
+    lim = {"year": (1980, 2107), "month": (1, 12), "day": (1, 31), "hour": (0, 23), "minute": (0, 59), "second": (0, 60)}
+    good = len(ag) == 1
+    vals = {}
+    if good:
+        for k_, (lo, hi) in lim.items():
+            v = norm(exd.operand(ag[0][3][k_], (ag[0][0], ag[0][1])))
+            vals[k_] = v[2] if v[0] == "const" else None
+            good = good and vals[k_] is not None and lo <= vals[k_] <= hi
+    ok &= rep.check(good, rule, "default-is-a-valid-date", where(dfl[0], dfl[0].span), "DateTime::default() is a constant, valid calendar timestamp",
+                    "DateTime::default() = %s: outside the ranges the checked constructor accepts (written into every entry that sets no time)" % vals)
+    rep.floor(rule, 5, "default, from_msdos, from_date_and_time, try_from + default validity")
     adt = facts.adts.get("types::DateTime")
     if adt:
         pub = [fl["name"] for fl in adt["variants"][0]["fields"] if "Public" in fl["vis"]]
